@@ -87,7 +87,7 @@ func overlapping(r *vkit.Run) {
 					}
 					if !ok {
 						r.Bucket("uploads_failed", 1)
-						return errUpload
+						return nextFailureErr()
 					}
 					mu.Lock()
 					for d := 0; d < ndev; d++ {
